@@ -168,7 +168,7 @@ func (t *Tables) Apply(property string, obs []Obligation) []Obligation {
 			continue
 		}
 		for j, je := range t.Justified {
-			if je.Rule == o.Rule && je.Func == o.Func && je.Construct == o.Construct {
+			if je.Rule == o.Rule && sameFuncLabel(je.Func, o.Func) && je.Construct == o.Construct {
 				o.Status, o.Reason = Justified, "table: "+je.Reason
 				t.usedJust[j] = true
 				break
@@ -232,4 +232,26 @@ func SortObs(obs []Obligation) {
 		}
 		return obs[i].Construct < obs[j].Construct
 	})
+}
+
+// sameFuncLabel: the same function under another form of declaration - a value or a pointer receiver, or
+// a package-level function of the same name in the same package - keeps its table entries.
+func sameFuncLabel(a, b string) bool {
+	if a == b {
+		return true
+	}
+	norm := func(s string) string {
+		if strings.HasPrefix(s, "(") {
+			if i := strings.Index(s, ")."); i > 0 {
+				recv := strings.TrimPrefix(s[1:i], "*")
+				pkg := recv
+				if j := strings.LastIndex(recv, "."); j >= 0 {
+					pkg = recv[:j]
+				}
+				return pkg + "." + s[i+2:]
+			}
+		}
+		return s
+	}
+	return norm(a) == norm(b)
 }
